@@ -6,4 +6,4 @@ require github.com/rulego/streamsql v0.0.0
 
 require github.com/expr-lang/expr v1.17.8 // indirect
 
-replace github.com/rulego/streamsql => /var/tmp/ws/c17-repo
+replace github.com/rulego/streamsql => /repo
